@@ -21,7 +21,7 @@ pub fn gen_case(seed: u64, focus: &str) -> Value {
     let mut rng = Rng::new(seed);
     let mut g = rng.fork(1);
     let opts = GenOpts {
-        need_slots: focus == "C11" || focus == "C15" || g.chance(1, 2),
+        need_slots: focus == "C11" || focus == "C15" || focus == "C15x" || g.chance(1, 2),
         no_type_coupling: false,
         max_segments: if focus == "C11" { 8 } else if focus == "C12x" { 5 } else { 10 },
         risky: false,
@@ -37,6 +37,7 @@ pub fn gen_case(seed: u64, focus: &str) -> Value {
         "C11" => "walk",
         "C15" => "trans",
         "C12x" => "exhaust",
+        "C15x" => "trans_exhaust",
         _ => "ops",
     };
     let n_ops = match mode {
@@ -1255,6 +1256,12 @@ fn run_inner(case: &Value, inst: RefInstance, _want: &BTreeSet<String>) -> Value
         }
         "trans" => {
             nontrivial = crate::sim_b_trans::run_trans(&mut cx, &s, case);
+        }
+        "trans_exhaust" => {
+            let n = crate::sim_b_trans::run_trans_exhaust(&mut cx, &s, 3);
+            cx.steps += n;
+            cx.log.push_str(&format!("trans_exhaust:{}", n));
+            nontrivial = n >= 100;
         }
         "exhaust" => {
             let n = crate::sim_b_tour::run_exhaust(&mut cx);
